@@ -42,3 +42,43 @@ Proof.
   rewrite HF in He. injection He as He. subst o.
   repeat split; assumption.
 Qed.
+
+(* C12 for the source: on EVERY byte string and key, whatever the two scheduler seeds, the translated execute_verify and the translated
+   execute_decrypt return the same verdict (whenever both runs fit their step budgets); a rejected file is not decrypted, not even partly. *)
+From Wencry Require Import FileProofsSec FileProofsTotal RefineE2E RefineE2Ed.
+
+Lemma SRC_verdicts_coincide_proof : forall c hbuf T F key rnd rnd',
+  (1 <= c)%nat -> (1 <= hbuf)%nat -> N.of_nat (16 * c) < 2 ^ 32 -> N.of_nat (64 * hbuf) < 2 ^ 32 -> (1 <= T <= 16)%nat ->
+  block16 key -> bytesb F = true -> N.of_nat (length F) < 2 ^ 36 ->
+  match src_verify_file c hbuf T F key rnd, src_decrypt_file c hbuf T F key rnd' with
+  | SOk (bv, ov, iv, _), SOk (bd, od, id, _) =>
+      bv = bd /\ ov = [] /\ iv = F /\ id = F /\ (bd = false -> od = []) /\ (bd = true -> dec c hbuf T F key = FileModel.Ok od)
+  | _, _ => True
+  end.
+Proof.
+  intros c hbuf T F key rnd rnd' Hc Hh Hc32 Hh32 HT Hk HF HL.
+  assert (HL56 : N.of_nat (length F) < 2 ^ 56).
+  { eapply N.lt_trans; [exact HL|]. reflexivity. }
+  assert (HT256 : (1 <= T < 256)%nat) by (destruct HT; split; [assumption|]; apply Nat.le_lt_trans with 16%nat; [assumption|repeat constructor]).
+  pose proof (SRC_execute_verify_is_model_proof c hbuf T F key rnd Hc Hh Hh32 HT256 Hk HF HL56) as HV.
+  destruct (src_verify_file c hbuf T F key rnd) as [[[[bv ov] iv] kv]|wv]; [|exact I].
+  destruct HV as [code [Hver [Hbv [Hov Hiv]]]].
+  destruct (N.eq_dec code 0) as [E0|N0].
+  - subst code.
+    destruct (C12_verdicts_coincide_proof c hbuf T F key Hc Hh (proj1 HT) HL56) as [[Hfw _] _].
+    assert (Hv : ver hbuf F key = FileModel.Ok true) by (unfold ver; rewrite Hver; reflexivity).
+    destruct (Hfw Hv) as [out Hdec].
+    pose proof (SRC_execute_decrypt_is_model_on_accepted_files_proof c hbuf T F key rnd' out Hc Hh Hc32 Hh32 HT Hk HF HL Hdec) as HD.
+    destruct (src_decrypt_file c hbuf T F key rnd') as [[[[bd od] id] kd]|wd]; [|exact I].
+    destruct HD as [Hbd [Hod Hid]]. subst.
+    repeat split; try reflexivity; try assumption.
+    + intro Hf; discriminate Hf.
+    + intros _; exact Hdec.
+  - pose proof (SRC_execute_decrypt_rejects_proof c hbuf T F key rnd' code Hc Hh Hh32 HT256 Hk HF HL56 Hver N0) as HD.
+    destruct (src_decrypt_file c hbuf T F key rnd') as [[[[bd od] id] kd]|wd]; [|exact I].
+    destruct HD as [Hbd [Hod Hid]]. subst.
+    assert (Hz : (code =? 0) = false) by (apply N.eqb_neq; exact N0).
+    rewrite Hz.
+    repeat split; try reflexivity.
+    intro Hf; discriminate Hf.
+Qed.
